@@ -15,18 +15,23 @@
    type are the request index), build (every push answers ok or small), then iterate the
    initialized part of the buffer.
 
-   Named deviations of the pinned code (recorded in known_findings.json):
-     ShortBufferAssert        CMsgIter::new asserts len >= CMSG_SPACE(0): the builder panics on
-                              a buffer shorter than one header instead of answering small, and
-                              the iterator panics on an empty control buffer (the encoding of the
-                              empty list) instead of yielding nothing (documented panics)
-     DataSliceIncludesHeader  CMsgRef::decode_data hands decode() a slice of cmsg_len bytes
-                              (header included) starting at the data pointer, i.e. Hdr bytes
-                              longer than the payload; behind the last message it ends
-                              outside the control buffer                                    *)
+   Named deviation (recorded in known_findings.json), still in the code:
+     ShortBufferAssert        AncillaryBuilder::new asserts capacity >= CMSG_SPACE(0): the builder
+                              panics on a buffer shorter than one header instead of answering
+                              small (documented, and required by the test invalid_buffer_length)
+   Repaired defects, kept as switches (TRUE = the repaired code, FALSE = the pinned code of
+   d4dae75; one control configuration each must still violate the property with FALSE):
+     FixIterShort             FALSE: CMsgIter::new asserted len >= CMSG_SPACE(0) for the iterator
+                              too, which panicked on an empty control buffer (the encoding of the
+                              empty list); TRUE (commit ce1244e): such a buffer yields nothing
+     FixDataSlice             FALSE: CMsgRef::decode_data handed decode() a slice of cmsg_len
+                              bytes (header included), Hdr bytes longer than the payload, ending
+                              outside the control buffer behind the last message;
+                              TRUE (commit f097c6c): cmsg_len - CMSG_LEN(0) bytes            *)
 EXTENDS Integers, Sequences, FiniteSets, TLC
 
-CONSTANTS Caps,      \* buffer capacities explored
+CONSTANTS FixIterShort, FixDataSlice,   \* BOOLEAN switches, see above
+          Caps,      \* buffer capacities explored
           Sizes,     \* payload sizes explored
           MaxMsgs,   \* maximal number of push requests
           Hdr, Align
@@ -92,8 +97,8 @@ Push ==
 IterNew ==
   /\ phase = "build" /\ reqs = <<>>
   /\ ilen' = blen
-  /\ (IF IterNewPanics(blen)
-      THEN phase' = "panic" /\ where' = "iter-new" /\ ioff' = ioff     \* ShortBufferAssert
+  /\ (IF ~FixIterShort /\ IterNewPanics(blen)
+      THEN phase' = "panic" /\ where' = "iter-new" /\ ioff' = ioff     \* pinned code only
       ELSE phase' = "iter" /\ where' = where /\ ioff' = FirstHdr(blen))
   /\ UNCHANGED <<cap, reqs, npush, blen, off, msgs, res, got>>
 
@@ -107,7 +112,8 @@ IterNext ==
   /\ LET h == HeaderAt(ioff) IN
        /\ got' = Append(got, [at |-> ioff, clen |-> h.clen, lv |-> h.lv,
                               dstart |-> ioff + Hdr,            \* CMSG_DATA = cmsg.offset(1)
-                              dlen |-> h.clen])                 \* DataSliceIncludesHeader: self.len()
+                              dlen |-> (IF FixDataSlice THEN h.clen - CLen(0)   \* payload only
+                                        ELSE h.clen)])                         \* pinned: self.len()
        /\ ioff' = NxtHdr(ioff, h.clen, ilen)
   /\ UNCHANGED <<cap, reqs, npush, phase, blen, off, msgs, res, ilen, where>>
 
@@ -145,12 +151,12 @@ RoundTrip == phase = "done" =>
 
 \* the slice handed to decode() is the payload and lies inside the control buffer
 DataSliceExact == \A i \in 1..Len(got) : got[i].dlen = got[i].clen - CLen(0) /\ got[i].dstart + got[i].dlen <= ilen
-\* what holds in spite of DataSliceIncludesHeader: the payload itself is inside
+\* what holds even with FixDataSlice = FALSE: the payload itself is inside
 PayloadInside == \A i \in 1..Len(got) : got[i].dstart + (got[i].clen - CLen(0)) <= ilen
 
 \* panics: only the documented asserts
 NoPanic == phase # "panic"
-NoPanicModuloKnown == phase = "panic" => \/ where = "builder-new" /\ cap < Space(0)
-                                         \/ where = "iter-new" /\ blen < Space(0) /\ msgs = <<>>
+NoPanicModuloKnown == phase = "panic" => where = "builder-new" /\ cap < Space(0)
+IterNeverPanics == where # "iter-new"
 Terminates == <>(phase \in {"done", "panic"})
 =============================================================================
